@@ -294,7 +294,8 @@ class _DirectedSystem(_DynamicalSystem):
 
         # Avoid closing over `self` to keep Numba happy
         def _rhs_impl(t: float, y: np.ndarray, _base_rhs=base_rhs, _fwd=fwd, _flip=flip_idx) -> np.ndarray:
-            dy = _base_rhs(t, y)
+            # integration time s corresponds to physical time fwd * s
+            dy = _base_rhs(_fwd * t, y)
             if _fwd == -1:
                 if _flip is None:
                     return -dy
